@@ -29,7 +29,8 @@ theorem identity_names_listed :
     graphId ∈ noUnset ∧ nodeId ∈ noUnset ∧ propClass ∈ noUnset ∧ propType ∈ noUnset ∧ propName ∈ noUnset := by decide
 
 /-- every way of writing the class through the API — single, bulk and whole-graph node updates, single
-    and bulk link updates, link unset — is refused with a query error and leaves the store unchanged -/
+    and bulk link updates, link unset — is refused and leaves the store unchanged (a query error; the
+    single-value updates answer an assertion error when the value is `None`, see `none_value_refused`) -/
 theorem class_update_refused (g nid a b kind : String) (v : Val) (p : Props) (hp : AMap.has nxLabel p = true) (s : Store) :
     updateNodeProperty g nid nxLabel v s = (.error .query, s) ∧
     (updateNodesProperty g nxLabel v s).1 = .error .query ∧ (updateNodesProperty g nxLabel v s).2 = s ∧
@@ -42,9 +43,50 @@ theorem class_update_refused (g nid a b kind : String) (v : Val) (p : Props) (hp
   · unfold updateNodesProperty; split <;> simp
   · unfold updateNodesProperty; split <;> simp
 
-/-- **identity_props_protected.**  Whatever operation is executed — including imports, re-imports, clones,
-    deletions, failing calls, and merges whose policy does not name `Class` with `overwrite`/`combine` — a
-    node that is stored before and after keeps its class and loses none of the identity properties. -/
+/-- the class cannot be written through `step` either, whatever the value (including `None`): the call
+    fails and the store is unchanged -/
+theorem class_update_refused_step (g nid a b kind : String) (v : Val) (s : Store) :
+    (∃ e, (Store.step (.updateNodeProperty g nid nxLabel v) s) = (.error e, s)) ∧
+    (∃ e, (Store.step (.updateLinkProperty g a b kind nxLabel v) s) = (.error e, s)) ∧
+    (∃ e, (Store.step (.updateNodesProperty g nxLabel v) s).1 = .error e) ∧ (Store.step (.updateNodesProperty g nxLabel v) s).2 = s := by
+  refine ⟨?_, ?_, ?_, ?_⟩
+  · by_cases hv : v = .none <;> simp [Store.step, assertVal, hv, updateNodeProperty]
+  · by_cases hv : v = .none <;> simp [Store.step, assertVal, hv, updateLinkProperty]
+  · by_cases hv : v = .none
+    · simp [Store.step, assertVal, hv]
+    · simp only [Store.step, assertVal, hv, if_false]
+      unfold updateNodesProperty; split <;> simp
+  · by_cases hv : v = .none
+    · simp [Store.step, assertVal, hv]
+    · simp only [Store.step, assertVal, hv, if_false]
+      unfold updateNodesProperty; split <;> simp
+
+/-- a single-value update (node, whole graph, link) handed `None` is refused (`assert prop_val is not None`)
+    and leaves the store unchanged: `None` cannot be used to blank a property one at a time -/
+theorem none_value_refused (g nid a b kind k : String) (s : Store) :
+    Store.step (.updateNodeProperty g nid k .none) s = (.error .assertion, s) ∧
+    Store.step (.updateNodesProperty g k .none) s = (.error .assertion, s) ∧
+    Store.step (.updateLinkProperty g a b kind k .none) s = (.error .assertion, s) := by
+  simp [Store.step, assertVal]
+
+/-- a bulk update (`update_node_properties`, `update_link_properties`, initial properties of `add_node` /
+    `add_link`) *stores* every value it is handed — `None`, `''`, `0`, `False`, lists, dicts alike: after
+    `d.update(props)` every key that was present is still present and every key of `props` is present.  A
+    `None` value is a stored `None`, never a removal. -/
+theorem bulk_update_stores_every_value (a p : Props) (k : String) (h : AMap.has k a = true ∨ k ∈ AMap.keys p) :
+    AMap.has k (AMap.update a p) = true := by
+  rcases h with h | h
+  · exact has_update_of_has a p k h
+  · exact has_update_of_mem a p k h
+
+example : AMap.get "Name" (AMap.update [("NodeID", Val.str "n"), ("Name", Val.str "x")] [("Site", .str "UKY"), ("Name", .none)])
+    = some Val.none := by decide
+
+/-- **identity_props_protected.**  Whatever operation is executed, with whatever values (`Val`: strings, `None`,
+    ints, bools, lists, dicts) — single, bulk and whole-graph updates, unsets, initial properties, imports,
+    re-imports, clones, deletions, failing calls, and merges whose policy does not name `Class` with
+    `overwrite`/`combine` — a node that is stored before and after keeps its class and still has every
+    identity property (`NO_UNSET_PROPERTIES`: GraphID, NodeID, Type, Class, Name) it had before. -/
 theorem identity_props_protected (op : Op) (s : Store) (h : Store.Inv s) (hc : op.keepsClass = true)
     (n : SNode) (hn : n ∈ s.nodes) (m : SNode) (hm : m ∈ (Store.step op s).2.nodes) (e : m.iid = n.iid) :
     AMap.get propClass m.attrs = AMap.get propClass n.attrs ∧
